@@ -61,6 +61,107 @@ def base_case(prop, binding="post", rid="req-1", cfg=None, **resp_over):
     return c
 
 
+def random_full(rng, prop):
+    """One random combination over ALL dimensions of the SP model at once (signature policy and states, addressing,
+    validity windows, correlation, status/shape, 1-2 assertions plain or encrypted).  Every defect is drawn with a small
+    probability so that roughly a third of the cases is accepted; used by C01/C04/C05/C06 as a cross-dimension stream."""
+    binding = rng.choice(["post", "post", "redirect", "soap"])
+    c = base_case(prop, binding=binding)
+    if binding == "soap":
+        c["return_addrs"] = []
+        c["resp"]["destination"] = None
+    cfg = {}
+    for k in ("want_resp", "want_assert", "want_either"):
+        v = rng.choice([None, None, True, False])
+        if v is not None:
+            cfg[k] = v
+    if rng.random() < 0.3:
+        cfg["allow_unsolicited"] = rng.random() < 0.6
+    skew = rng.choice([None, None, 0, 60, 180])
+    if skew is not None:
+        cfg["skew"] = skew
+    c["cfg"] = cfg
+    r = c["resp"]
+    need_resp = cfg.get("want_resp", True)
+    r["sig"] = rng.choice(["valid"] * 15 + ["absent", "corrupted", "untrusted"]) if need_resp else \
+        rng.choice(["absent"] * 10 + ["valid", "valid", "valid", "corrupted", "untrusted"])
+    a0 = r["assertions"][0]
+    asserts = []
+    for i in range(rng.choice([1, 1, 1, 1, 2])):
+        a = copy.deepcopy(a0)
+        a["id"] = "a-%d" % i
+        need_a = cfg.get("want_assert", False) or (cfg.get("want_either", False) and r["sig"] != "valid")
+        a["sig"] = rng.choice(["valid"] * 15 + ["absent", "corrupted", "untrusted"]) if need_a else \
+            rng.choice(["absent"] * 10 + ["valid", "valid", "valid", "corrupted", "untrusted"])
+        if rng.random() < 0.2:
+            a["encrypted"] = True
+            a["decryptable"] = rng.random() < 0.85
+        d = a["subject"]["confs"][0]["data"]
+        k = skew or 0
+        offs = [-3600, -k - 2, -k - 1, -k, -k + 1, 0, k - 1, k, k + 1, k + 2, 3600]
+        if rng.random() < 0.12:
+            a["conditions"]["nooa"] = S.NOW0 + rng.choice(offs)
+        if rng.random() < 0.12:
+            a["conditions"]["nb"] = S.NOW0 + rng.choice(offs)
+        if rng.random() < 0.12:
+            d["nooa"] = S.NOW0 + rng.choice(offs)
+        if rng.random() < 0.08:
+            d["nb"] = S.NOW0 + rng.choice(offs)
+        if rng.random() < 0.1:
+            a["authn"][0]["session_nooa"] = S.NOW0 + rng.choice(offs)
+        if rng.random() < 0.1:
+            d["address"] = rng.choice(["192.0.2.7", "2001:db8::1"])
+        if rng.random() < 0.12:
+            a["conditions"]["audiences"] = rng.choice([[["https://other.verif.example/sp"]], [[S.SP_ID], ["https://other.verif.example/sp"]],
+                                                       [[S.SP_ID, "https://other.verif.example/sp"]], [], [[S.SP_ID + "/"]], [[" " + S.SP_ID]]])
+        if rng.random() < 0.1:
+            d["recipient"] = rng.choice(["https://evil.example/acs", S.SP_ID, None, (d.get("recipient") or "x") + "/"])
+        if rng.random() < 0.1:
+            d["irt"] = rng.choice(["req-2", "req-unknown", None])
+        if rng.random() < 0.06:
+            a["subject"]["confs"].insert(rng.randrange(2), {"method": rng.choice(["bearer", "sender-vouches", "holder-of-key"]), "data": None})
+        if rng.random() < 0.04:
+            a["authn"] = [dict(a["authn"][0], session_index="s%d" % j) for j in range(rng.choice([0, 2]))]
+        # (a missing Subject is left to C06's own streams: the real code refuses it while loading, the model when it
+        #  reaches the subject; combined with an envelope defect that returns None the two would differ in
+        #  "rejected" vs "no identity", which no property distinguishes)
+        asserts.append(a)
+    r["assertions"] = asserts
+    if rng.random() < 0.1 and binding != "soap":
+        r["destination"] = rng.choice(["https://evil.example/acs", None, "", S.SP_ID, (r["destination"] or "x") + "x"])
+    if rng.random() < 0.1:
+        r["in_response_to"] = rng.choice(["req-2", "req-unknown", None])
+    if rng.random() < 0.15:
+        c["env"]["outstanding"] = rng.choice([[], [["req-0", "/came/0"], ["req-1", "/came/1"], ["req-2", "/came/2"]]])
+    if rng.random() < 0.08:
+        r["issue_instant"] = S.NOW0 + rng.choice([-86400 - k - 2, -86400 + 5, 86400 + k + 2, 86400 - 5, -3600])
+    if rng.random() < 0.04:
+        r["version"] = rng.choice(["1.1", "2.1", "3.0"])
+    if rng.random() < 0.05:
+        r["status_top"] = "urn:oasis:names:tc:SAML:2.0:status:Responder"
+        r["status_second"] = rng.choice([None, "urn:oasis:names:tc:SAML:2.0:status:AuthnFailed", "urn:example:status"])
+    if rng.random() < 0.25:
+        c["env"]["conv_info"] = rng.choice([{"entity_id": S.SP_ID}, {"entity_id": S.SP_ID, "remote_addr": "192.0.2.7"},
+                                            {"remote_addr": "192.0.2.7"}, {"entity_id": "https://other.verif.example/sp"}])
+    c["syntax"] = rng.choice(["z", "z", "frac"])
+    c["tag"] = "cross"
+    return c
+
+
+def as_attr(case, keep_authn=True):
+    """Turn a case into an attribute-query answer (Saml2Client.parse_attribute_query_response; Model/SpAttr.lean)."""
+    case["env"]["kind"] = "attr"
+    case["env"]["binding"] = "soap"
+    case["env"]["conv_info"] = None
+    case["return_addrs"] = []
+    case["resp"]["destination"] = None
+    if not keep_authn:
+        for a in case["resp"]["assertions"]:
+            a["authn"] = []
+    case["tag"] = "attr/" + case.get("tag", "")
+    return case
+
+
 def run_impl(case):
     return F.run_sp(case)
 
